@@ -246,7 +246,274 @@ def mode_old_layouts(cases):
     return out
 
 
-MODES = {"roundtrip": mode_roundtrip, "dump_hex": mode_dump_hex, "old_layouts": mode_old_layouts}
+
+def one_codec(sio, spec, opts):
+    """model correspondence for C04/C05/C12: the value as a Coq `pval` term + the canonical texts of
+    what the implementation does with it (normalised archive, loaded value or exception class)"""
+    import absval
+    import pval_emit as PE
+    if PE.abs_hook not in absval.EXT_HOOKS:
+        absval.EXT_HOOKS.append(PE.abs_hook)
+    rec = {}
+    try:
+        obj = build(spec)
+    except Exception as e:
+        return {"build": "err:" + type(e).__name__ + ":" + str(e)[:80]}
+    rec["build"] = "ok"
+    try:
+        rec["term"], rec["kinds"] = PE.emit_case(obj, opts["protocol"], opts["version"])
+    except PE.Unmodelled as e:
+        rec["skip"] = str(e)
+    except RecursionError:
+        rec["skip"] = "recursion"
+    try:
+        t0 = PE.value_text(obj)
+    except Exception as e:
+        t0 = "<abs failed: %s>" % type(e).__name__
+    rec["type0"] = f"{type(obj).__module__}.{type(obj).__qualname__}"
+    try:
+        data = sio.dumps(obj)
+    except BaseException as e:  # noqa
+        en = PE.exc_enum(e) if isinstance(e, Exception) else "BASEEXC"
+        rec["dump"] = "err:" + en
+        rec["load"] = "dump-err:" + en
+        rec["msg"] = str(e)[:160]
+        rec["pure"] = PE.value_text(obj) == t0
+        return rec
+    rec["pure"] = PE.value_text(obj) == t0
+    with zipfile.ZipFile(io.BytesIO(data)) as z:
+        names = z.namelist()
+        infos = [(i.filename, i.is_dir()) for i in z.infolist()]
+        schema = json.loads(z.read("schema.json"))
+    ns, nm = norm_schema(schema, [n for n in names if n != "schema.json"])
+    rec["dump"] = "ok:" + PE.archive_text(ns, alias_orphans(nm))
+    rec["names"] = names
+    rec["raw_schema"] = schema if opts.get("keep_schema") else None
+    rec["protocol"] = schema.get("protocol")
+    rec["version"] = schema.get("_skops_version")
+    rec["wf"] = schema_wf(schema, names, infos)
+    try:
+        gut = sio.get_untrusted_types(data=data)
+        obj2 = sio.loads(data, trusted=gut)
+    except BaseException as e:  # noqa
+        rec["load"] = "err:" + (PE.exc_enum(e) if isinstance(e, Exception) else "BASEEXC")
+        rec["msg"] = str(e)[:160]
+        return rec
+    t2 = PE.value_text(obj2)
+    rec["load"] = "ok:" + t2
+    rec["same"] = t2 == t0
+    if not rec["same"]:
+        rec["t0"] = t0[:3000]
+    k = opts.get("cycles", 0)
+    if k:
+        cur, stable = obj2, True
+        try:
+            for _ in range(k):
+                d2 = sio.dumps(cur)
+                cur = sio.loads(d2, trusted=sio.get_untrusted_types(data=d2))
+                if PE.value_text(cur) != t0:
+                    stable = False
+                    break
+        except Exception as e:
+            stable = "raises:" + PE.exc_enum(e)
+        rec["stable"] = stable
+        rec["draws"] = rng_draws(obj, cur)
+    return rec
+
+
+def alias_orphans(norm_members):
+    """members no node refers to keep their id/uuid name in norm_schema: rename them too"""
+    import re
+    return sorted(n if re.fullmatch(r"member\d+\.\w+", n) else "orphan" + Path(n).suffix for n in norm_members)
+
+
+def rng_draws(a, b):
+    """the next draws of every RNG reachable at the same list/tuple/dict-value position (copies are drawn from)"""
+    import copy
+    out = []
+
+    def walk(x, y, depth=0):
+        if depth > 6:
+            return
+        if isinstance(x, np.random.RandomState) and isinstance(y, np.random.RandomState):
+            out.append(bool(np.array_equal(copy.deepcopy(x).random_sample(4), copy.deepcopy(y).random_sample(4))))
+        elif isinstance(x, np.random.Generator) and isinstance(y, np.random.Generator):
+            out.append(bool(np.array_equal(copy.deepcopy(x).random(4), copy.deepcopy(y).random(4))))
+        elif isinstance(x, (list, tuple)) and isinstance(y, (list, tuple)) and len(x) == len(y):
+            for p, q in zip(x, y):
+                walk(p, q, depth + 1)
+        elif isinstance(x, dict) and isinstance(y, dict) and len(x) == len(y):
+            for p, q in zip(x.values(), y.values()):
+                walk(p, q, depth + 1)
+    walk(a, b)
+    return out
+
+
+NODE_KEYS = ("__loader__", "__class__", "__module__", "__id__")
+
+
+def schema_wf(schema, names, infos):
+    """C12's statement on the real archive: returns a list of defects (empty = well-formed)"""
+    import re
+    bad = []
+    if not isinstance(schema.get("protocol"), int):
+        bad.append("root lacks an int protocol")
+    if not isinstance(schema.get("_skops_version"), str):
+        bad.append("root lacks _skops_version")
+    refs = []
+
+    def walk(j, path):
+        if isinstance(j, dict):
+            if "__loader__" in j or "__class__" in j or "__module__" in j:
+                for k in NODE_KEYS:
+                    if k not in j:
+                        bad.append(f"node at {path or '<root>'} lacks {k}")
+                if isinstance(j.get("file"), str):
+                    refs.append(j["file"])
+            for k, v in j.items():
+                walk(v, path + "/" + k)
+        elif isinstance(j, list):
+            for i, v in enumerate(j):
+                walk(v, f"{path}/{i}")
+    walk(schema, "")
+    others = [n for n in names if n != "schema.json"]
+    if names.count("schema.json") != 1:
+        bad.append("schema.json member count != 1")
+    for r in sorted(set(refs)):
+        if r not in others:
+            bad.append(f"node refers to missing member {r}")
+    for n in others:
+        if n not in refs:
+            bad.append(f"member {n} is not referred to by any node")
+    if len(set(names)) != len(names):
+        bad.append("duplicate member names")
+    for n, isdir in infos:
+        if isdir or "/" in n or "\\" in n or n.startswith((".", "~")) or ":" in n:
+            bad.append(f"member name {n!r} is not flat")
+        elif n != "schema.json" and not re.fullmatch(r"(\d+\.np[yz]|[0-9a-f]{8}-[0-9a-f]{4}-[0-9a-f]{4}-[0-9a-f]{4}-[0-9a-f]{12}\.bin)", n):
+            bad.append(f"member name {n!r} is not <id>.npy / <id>.npz / <uuid>.bin")
+    return bad
+
+
+def mode_codec(cases):
+    import skops
+    import skops.io as sio
+    opts = cases[0]
+    opts.setdefault("version", skops.__version__)
+    return [one_codec(sio, spec, opts) for spec in cases[1:]]
+
+
+def read_archive(data):
+    import hashlib
+    with zipfile.ZipFile(io.BytesIO(data)) as z:
+        names = z.namelist()
+        infos = [(i.filename, i.is_dir()) for i in z.infolist()]
+        ctypes = sorted({i.compress_type for i in z.infolist()})
+        schema = json.loads(z.read("schema.json"))
+        contents = {n: hashlib.sha1(z.read(n)).hexdigest() for n in names if n != "schema.json"}
+        bad_crc = z.testzip()
+    return names, infos, ctypes, schema, contents, bad_crc
+
+
+def norm_archive(data):
+    """(normalised schema text, {normalised member name: content hash}, defects, compress types)"""
+    import pval_emit as PE
+    names, infos, ctypes, schema, contents, bad_crc = read_archive(data)
+    ids, files = {}, {}
+    ns, nm = norm_schema(schema, [n for n in names if n != "schema.json"])
+    # rename members like norm_schema does (first occurrence order of "file" values)
+    order = []
+
+    def walk(j):
+        if isinstance(j, dict):
+            for k, v in j.items():
+                if k == "file" and isinstance(v, str):
+                    if v not in order:
+                        order.append(v)
+                else:
+                    walk(v)
+        elif isinstance(j, list):
+            for x in j:
+                walk(x)
+    walk(schema)
+    alias = {n: f"member{i}" + Path(n).suffix for i, n in enumerate(order)}
+    cont = {}
+    for n, h in contents.items():
+        cont.setdefault(alias.get(n, "orphan" + Path(n).suffix), []).append(h)
+    cont = {k: sorted(v) for k, v in cont.items()}
+    wf = schema_wf(schema, names, infos)
+    if bad_crc:
+        wf.append(f"bad CRC in member {bad_crc}")
+    return PE.archive_text(ns, alias_orphans(nm)), cont, wf, ctypes
+
+
+def one_sinks(sio, spec, opts):
+    """C12: the same object to dumps / str path / Path / open binary file under every compression setting"""
+    import absval
+    import os
+    import pval_emit as PE
+    if PE.abs_hook not in absval.EXT_HOOKS:
+        absval.EXT_HOOKS.append(PE.abs_hook)
+    scratch = Path(opts["scratch"])
+    scratch.mkdir(parents=True, exist_ok=True)
+    rec = {"variants": {}}
+    try:
+        obj = build(spec)
+    except Exception as e:
+        return {"build": "err:" + type(e).__name__}
+    rec["build"] = "ok"
+    for method, level in opts["configs"]:
+        for sink in ("dumps", "str", "path", "file"):
+            key = f"{sink}/{method}/{level}"
+            kw = {"compression": method, "compresslevel": level}
+            f = scratch / f"a_{os.getpid()}.skops"
+            try:
+                if sink == "dumps":
+                    data = sio.dumps(obj, **kw)
+                elif sink == "str":
+                    sio.dump(obj, str(f), **kw)
+                    data = f.read_bytes()
+                elif sink == "path":
+                    sio.dump(obj, f, **kw)
+                    data = f.read_bytes()
+                else:
+                    with open(f, "wb") as fh:
+                        sio.dump(obj, fh, **kw)
+                    data = f.read_bytes()
+            except BaseException as e:  # noqa
+                rec["variants"][key] = {"dump": "err:" + (PE.exc_enum(e) if isinstance(e, Exception) else "BASEEXC")}
+                continue
+            finally:
+                if f.exists():
+                    f.unlink()
+            v = {"dump": "ok"}
+            try:
+                v["archive"], v["contents"], v["wf"], v["ctypes"] = norm_archive(data)
+            except Exception as e:
+                v["archive"] = "unreadable:" + type(e).__name__
+                rec["variants"][key] = v
+                continue
+            try:
+                if sink in ("dumps", "file"):
+                    o2 = sio.loads(data, trusted=sio.get_untrusted_types(data=data))
+                else:
+                    f.write_bytes(data)
+                    o2 = sio.load(str(f) if sink == "str" else f, trusted=sio.get_untrusted_types(file=f))
+                    f.unlink()
+                v["load"] = "ok:" + PE.value_text(o2)
+            except BaseException as e:  # noqa
+                v["load"] = "err:" + (PE.exc_enum(e) if isinstance(e, Exception) else "BASEEXC")
+            rec["variants"][key] = v
+    return rec
+
+
+def mode_sinks(cases):
+    import skops.io as sio
+    opts = cases[0]
+    return [one_sinks(sio, spec, opts) for spec in cases[1:]]
+
+
+MODES = {"roundtrip": mode_roundtrip, "dump_hex": mode_dump_hex, "old_layouts": mode_old_layouts, "codec": mode_codec, "sinks": mode_sinks}
 
 if __name__ == "__main__":
     req = json.load(sys.stdin)
